@@ -1064,3 +1064,6 @@ V("c05-neutral-close-drops-result", N, "C05", None,
         self._arrow_table_fetch_index = None
         self._arrow_table = None
         return True"""))
+V("c17-neutral-caller-combines-chunks", N, "C17", None,
+  ("arrow", "    batches = table.combine_chunks().to_batches()\n", "    batches = table.to_batches()\n"),
+  ("server", "to_ipc(to_sf(cur._arrow_table, rowtype))", "to_ipc(to_sf(cur._arrow_table, rowtype).combine_chunks())"))
